@@ -44,6 +44,11 @@ CLAIMS = {
   text="Exploration: MergeNodes on independent and overlapping (edited/permuted copy) tree pairs, MergeNodes(t,t), the error contract, and MergeNodeSlices on list pairs with the equality, always-merge and never-merge functions. Oracles: every input node below the roots is represented by an equal node under an equal parent and every result node stems from input nodes; max(|l|,|r|) <= |result| <= |l|+|r| (= max / = sum for always / never); an instrumented merge function shows each element merged at most once and merged results never offered again; self-merge keeps the node count when no two siblings are equal; the result shares no node with the inputs, inputs are unchanged by the merge and by a later mutation of the result. One documented-behaviour finding class (C09-F1) is excluded and counted.",
   note="Trusted: 'equal' = Equals either way or same tag/value/pointer; the caller-identified roots are not required to be equal; merges go into a fresh target document.",
   design="6.9"),
+ "C10": dict(
+  technique="PBT (rapid) over generated document pairs with marker-based accounting oracle and marker-tracked reference resolution; library call and query function",
+  text="Exploration: referentially closed family-graph pairs (edited copies with equal or renumbered pointers, disjoint, clashing, empty) in which every person carries a unique marker and unique fact leaves are merged with default/strict/lenient thresholds. Accounting: the output decodes, every marker occurs exactly once, no two people of one document are merged, merged individuals hold all unique facts of both originals, inputs are unchanged. References: every HUSB/WIFE/CHIL resolves to an individual carrying the marker of a person the inputs name in that family and role, no input reference is lost, FAMS/FAMC resolve to families. The reference clauses are a listed finding (C10-F1) exactly when people were merged under different pointers or records share a pointer; they stay active otherwise, and accounting is active everywhere.",
+  note="Trusted: marker leaves cannot be identified by any merge rule; class of a failing reference clause is computed from the output.",
+  design="6.10"),
  "C11": dict(
   technique="PBT (rapid) with validity oracle + differential Jobs=N vs Jobs=1 under a no-tie premise; race detector on generated cases in child processes (GOMAXPROCS x Jobs x repetitions); CLI under -race",
   text="Exploration: generated pairs of individual lists (shared/disjoint pointers, shared/duplicated/malformed identifiers, renumbered and edited copies, identical twins, empty sides) x thresholds x Jobs {0,1,2,3,8,16}. Validity: every individual exactly once per side, no empty result, every pair justified by full weighted similarity, shared identifier or trusted pointer. Differential: identical pairs to the sequential run whenever the harness's own score matrix shows no tie and no duplicated identifier/pointer. Schedules: the same cases run in a -race build, one child process per case and GOMAXPROCS value (1/2/16), cold and warm caches, with repetitions; 'gedcom diff -jobs N' from a -race build must exit 0 without a race report and list every individual. Races are classified by their two innermost functions.",
